@@ -68,21 +68,41 @@ fn commitment_for(net: &Net, observer: usize, chan_id: ChannelId, txid: Txid) ->
 	mon.initial_counterparty_commitment_tx().filter(|ct| ct.trust().txid() == txid)
 }
 
+/// PER-NODE configuration of a scenario: nothing is left at the library defaults that a node operator can set differently
+/// from its peer — `our_to_self_delay` (144..=1008, the two nodes ALWAYS differ), the reserve each side asks of the other,
+/// and the channel type (both nodes must agree on anchors for the channel to be one).
+fn draw_cfgs(rng: &mut Rng, anchors: bool) -> (lightning::util::config::UserConfig, lightning::util::config::UserConfig, u16, u16) {
+	let draw = |rng: &mut Rng| -> u16 { (match rng.below(20) { 0..=10 => rng.range(144, 190), 11..=16 => rng.range(190, 420), 17 | 18 => rng.range(420, 800), _ => rng.range(800, 1008) }) as u16 };
+	let da = draw(rng);
+	let mut db = draw(rng);
+	if db == da { db = if da < 1000 { da + 1 + rng.below(7) as u16 } else { da - 1 - rng.below(7) as u16 }; }
+	let mk = |d: u16, reserve: u32| { let mut c = if anchors { test_default_channel_config() } else { test_legacy_channel_config() };
+		c.channel_handshake_config.our_to_self_delay = d; c.channel_handshake_config.their_channel_reserve_proportional_millionths = reserve; c };
+	let ra = *rng.pick(&[10_000u32, 20_000, 50_000, 100_000]); let rb = *rng.pick(&[10_000u32, 15_000, 40_000, 100_000]);
+	(mk(da, ra), mk(db, rb), da, db)
+}
+
 fn close_scenario(seed: u64, thorough: bool) -> Result<Outcome, String> {
+	use lightning::sign::OutputSpender;
 	let mut rng = Rng::new(seed);
 	let mut out = Outcome { ops: vec![], class: String::new(), oracle: vec![], est_kind: String::new() };
-	// closure by the counterparty is also run on anchor channels (A's claims there need no external funding);
-	// A's own close on an anchor channel needs a wallet-funded BumpTransaction handler: not exercised (cfg `partial`)
+	// A's channel is closed by A's own latest commitment or by the counterparty's, on legacy AND anchor channels; on anchor channels
+	// the closer's claims need external funding: BumpTransaction events of BOTH nodes go to their BumpTransactionEventHandler + test wallet
 	let holder_close = rng.chance(1, 2);
-	let anchors = !holder_close && rng.chance(1, 3);
-	let cfg = if anchors { test_default_channel_config() } else { test_legacy_channel_config() };
-	let mut net = std::mem::ManuallyDrop::new(Net::new(2, vec![Some(cfg.clone()), Some(cfg)]));   // never dropped: skips Node::drop's end-of-test assertions (half-finished scenario by design)
+	let anchors = rng.chance(1, 3);
+	let (cfg_a, cfg_b, d_a, d_b) = draw_cfgs(&mut rng, anchors);
+	let mut net = std::mem::ManuallyDrop::new(Net::new(2, vec![Some(cfg_a), Some(cfg_b)]));   // never dropped: skips Node::drop's end-of-test assertions (half-finished scenario by design)
 	{	// block-delivery style from the scenario seed (create_network draws it from a per-process RandomState otherwise)
 		use ConnectStyle::*;
 		let styles = [BestBlockFirst, BestBlockFirstSkippingBlocks, BestBlockFirstReorgsOnlyTip, TransactionsFirst, TransactionsFirstSkippingBlocks,
 			TransactionsDuplicativelyFirstSkippingBlocks, HighlyRedundantTransactionsFirstSkippingBlocks, TransactionsFirstReorgsOnlyTip, FullBlockViaListen,
 			ReplayedFullBlockViaListen, FullBlockDisconnectionsSkippingViaListen];
 		*net.nodes[0].connect_style.borrow_mut() = styles[rng.below(styles.len() as u64) as usize];
+	}
+	let mut prevouts: HashMap<OutPoint, TxOut> = HashMap::new();
+	if anchors {
+		let reserve = provide_utxo_reserves(&net.nodes, 6, bitcoin::Amount::from_sat(20_000_000));
+		for (i, o) in reserve.output.iter().enumerate() { prevouts.insert(OutPoint { txid: reserve.compute_txid(), vout: i as u32 }, o.clone()); }
 	}
 	let c = net.open(0, 1, 1_000_000, 400_000_000);
 	let chan_id = net.chans[c].2;
@@ -121,7 +141,8 @@ fn close_scenario(seed: u64, thorough: bool) -> Result<Outcome, String> {
 	let ct = commitment_for(&net, peer_of(closer), chan_id, ctxid).ok_or("closing commitment unknown to the other monitor")?;
 	let trusted = ct.trust();
 	if trusted.built_transaction().transaction.output.len() != commitment_tx.output.len() { return Err("commitment shape mismatch".into()); }
-	let csv_a: Option<u32> = if holder_close { Some(lightning::ln::channelmanager::BREAKDOWN_TIMEOUT as u32) } else { None };
+	// the CSV REALLY in the scripts of A's delayed outputs on A's own commitment: what B chose (harness-side ground truth: the configs)
+	let csv_on_a: u32 = d_b as u32;
 	let mut items: Vec<Item> = vec![];
 	// A's balance output
 	if holder_close {
@@ -140,10 +161,13 @@ fn close_scenario(seed: u64, thorough: bool) -> Result<Outcome, String> {
 		items.push(Item { kind, sat: h.amount_msat / 1000, vout, cltv: h.cltv_expiry });
 	}
 	// (B may know preimages of A's outbound HTLCs: then B takes them on chain — a `peer` claim)
-	let mut prevouts: HashMap<OutPoint, TxOut> = HashMap::new();
 	let mut conf_height: HashMap<Txid, u32> = HashMap::new();
 	let mut spent: BTreeSet<OutPoint> = BTreeSet::new();
 	for (i, o) in commitment_tx.output.iter().enumerate() { prevouts.insert(OutPoint { txid: ctxid, vout: i as u32 }, o.clone()); }
+	{	// everything already on chain (funding transaction, wallet reserves)
+		let blocks = net.nodes[a].blocks.lock().unwrap();
+		for (blk, bh) in blocks.iter() { for t in &blk.txdata { let id = t.compute_txid(); conf_height.insert(id, *bh); for (k, o) in t.output.iter().enumerate() { prevouts.entry(OutPoint { txid: id, vout: k as u32 }).or_insert_with(|| o.clone()); } } }
+	}
 	{	// the funding output (A may re-broadcast its commitment: it is verified like every other broadcast)
 		let fop = commitment_tx.input[0].previous_output;
 		let blocks = net.nodes[a].blocks.lock().unwrap();
@@ -151,6 +175,7 @@ fn close_scenario(seed: u64, thorough: bool) -> Result<Outcome, String> {
 		if !prevouts.contains_key(&fop) { return Err("funding transaction not found".into()); }
 		if let Err(e) = commitment_tx.verify(|op| prevouts.get(op).cloned()) { out.oracle.push(format!("closing commitment {} fails consensus verification: {:?}", ctxid, e)); }
 	}
+	let desc = format!("{} close on a{} channel, A's our_to_self_delay {} / B's {}", if holder_close { "holder" } else { "counterparty" }, if anchors { "n anchor" } else { " legacy" }, d_a, d_b);
 	// ---- chain loop ---------------------------------------------------------------------------------------------
 	let mine_both = |net: &Net, txs: &[Transaction]| {
 		for i in 0..2 { let refs: Vec<&Transaction> = txs.iter().collect(); if refs.is_empty() { connect_blocks(&net.nodes[i], 1); } else { mine_transactions(&net.nodes[i], &refs); } }
@@ -165,14 +190,82 @@ fn close_scenario(seed: u64, thorough: bool) -> Result<Outcome, String> {
 	let close_h = net.nodes[a].best_block_info().1;
 	conf_height.insert(ctxid, close_h);
 	spent.insert(commitment_tx.input[0].previous_output);
-	let item_tok = |it: &Item| format!("{}:{}:{}:{}:{}", match it.kind { K::S => "S", K::O => "O", K::I => "I", K::U => "U" }, it.sat,
-		if it.kind == K::O { it.cltv } else { 0 }, if it.kind == K::I || it.kind == K::U { it.cltv } else { 0 }, match (it.kind, csv_a) { (K::U, _) => "-".to_string(), (_, Some(d)) => d.to_string(), (_, None) => "-".to_string() });
-	out.ops.push((format!("close {} {}", close_h, items.iter().map(item_tok).collect::<Vec<_>>().join(" ")).trim_end().to_string(), show_balances(&balances_of_a(&net)), "close".into()));
+	// ---- SpendableOutputs bookkeeping: which outputs pay A, the CSV REALLY in their script, when they must be handed out ----------
+	// outpoint -> (true csv of the script, what it is)
+	let mut expect: BTreeMap<(Txid, u32), (u32, String, Vec<usize>)> = BTreeMap::new();
+	let mut evented: Vec<bool> = items.iter().map(|_| false).collect();
+	let mut item_fee: Vec<u64> = items.iter().map(|_| 0).collect();
+	let mut taken_at: Vec<Option<u32>> = items.iter().map(|_| None).collect();
+	for (idx, it) in items.iter().enumerate() { if it.kind == K::S {
+		let csv = if holder_close { csv_on_a } else if anchors { 1 } else { 0 };
+		expect.insert((ctxid, it.vout), (csv, format!("A's balance output {}:{} ({} sat)", &ctxid.to_string()[..8], it.vout, it.sat), vec![idx]));
+	} }
+	let due = |conf: u32, csv: u32| conf + csv.max(lightning::chain::channelmonitor::ANTI_REORG_DELAY) - 1;
+	let mut spendable = 0u64; let mut fees = 0u64; let mut lost = 0u64;
+	let mut n_spent_descriptors = 0u32;
+	let mut conservation_reported = false;
+	let secp = bitcoin::secp256k1::Secp256k1::new();
+	// events of node i after a call: BumpTransaction events of BOTH nodes are funded; A's SpendableOutputs are checked and SPENT
+	macro_rules! process_events { ($i:expr) => {{
+		let i: usize = $i;
+		let h_ev = net.nodes[i].best_block_info().1;
+		for e in net.nodes[i].chain_monitor.chain_monitor.get_and_clear_pending_events() {
+			match e {
+				Event::BumpTransaction(ev) => {
+					if let Err(p) = guarded(AssertUnwindSafe(|| net.nodes[i].bump_tx_handler.handle_event(&ev))) { out.oracle.push(format!("BumpTransactionEventHandler of node {} panicked ({}): {}", i, desc, p.replace('\n', " ").chars().take(200).collect::<String>())); }
+				},
+				Event::SpendableOutputs { outputs, .. } if i == a => {
+					for o in &outputs {
+						let (op, value, kind, claimed) = match o {
+							SpendableOutputDescriptor::StaticOutput { outpoint, output, .. } => (*outpoint, output.value.to_sat(), "StaticOutput", 0u32),
+							SpendableOutputDescriptor::StaticPaymentOutput(d) => (d.outpoint, d.output.value.to_sat(), "StaticPaymentOutput", 0),
+							SpendableOutputDescriptor::DelayedPaymentOutput(d) => (d.outpoint, d.output.value.to_sat(), "DelayedPaymentOutput", d.to_self_delay as u32),
+						};
+						spendable += value;
+						let key = (op.txid, op.index as u32);
+						match (expect.remove(&key), conf_height.get(&op.txid)) {
+							(Some((csv, what, idxs)), Some(conf)) => {
+								for ix in idxs { evented[ix] = true; }
+								let want = due(*conf, csv);
+								if h_ev < want { out.oracle.push(format!("SpendableOutputs for {} at height {}, but confirmed at {} with script CSV {} it is buried / a spend is final in the next block only at height {} (descriptor: {} to_self_delay {}; {})", what, h_ev, conf, csv, want, kind, claimed, desc)); }
+								if h_ev > want { out.oracle.push(format!("{} matured at height {} (confirmed at {}, CSV {}) but its SpendableOutputs came only at height {} ({})", what, want, conf, csv, h_ev, desc)); }
+								if kind == "DelayedPaymentOutput" && claimed != csv { out.oracle.push(format!("DelayedPaymentOutput descriptor for {} says to_self_delay {} but the output's script has CSV {} ({})", what, claimed, csv, desc)); }
+								if (kind == "DelayedPaymentOutput") != (holder_close) { out.oracle.push(format!("{} descriptor for {} in a {} close", kind, what, if holder_close { "holder" } else { "counterparty" })); }
+							},
+							_ => out.oracle.push(format!("SpendableOutputs at height {} for {}:{} ({} sat, {}), which the harness does not know as an output paying A ({})", h_ev, &op.txid.to_string()[..8], op.index, value, kind, desc)),
+						}
+					}
+					// the node's keys must ACTUALLY be able to spend what was handed out, in the very next block
+					let refs: Vec<&SpendableOutputDescriptor> = outputs.iter().collect();
+					let change = bitcoin::script::Builder::new().push_opcode(bitcoin::opcodes::all::OP_RETURN).into_script();
+					match guarded(AssertUnwindSafe(|| net.nodes[a].keys_manager.backing.spend_spendable_outputs(&refs, Vec::new(), change, 253, None, &secp))) {
+						Ok(Ok(tx)) => {
+							n_spent_descriptors += outputs.len() as u32;
+							if let Err(e) = tx.verify(|op| prevouts.get(op).cloned()) { out.oracle.push(format!("the transaction spend_spendable_outputs built for the SpendableOutputs of height {} FAILS consensus verification: {:?} (inputs {:?}; {})", h_ev, e, tx.input.iter().map(|x| format!("{}:{} seq {}", &x.previous_output.txid.to_string()[..8], x.previous_output.vout, x.sequence.0)).collect::<Vec<_>>(), desc)); }
+							for inp in &tx.input {
+								if let Some(bitcoin::relative::LockTime::Blocks(n)) = inp.sequence.to_relative_lock_time() {
+									let ph = conf_height.get(&inp.previous_output.txid).cloned().unwrap_or(h_ev);
+									if tx.version.0 >= 2 && h_ev + 1 < ph + n.value() as u32 { out.oracle.push(format!("the spend of {}:{} (nSequence {}) built at the SpendableOutputs of height {} is not BIP-68 final in the next block: its input confirmed at {} ({})", &inp.previous_output.txid.to_string()[..8], inp.previous_output.vout, n.value(), h_ev, ph, desc)); }
+								}
+							}
+						},
+						Ok(Err(())) => out.oracle.push(format!("spend_spendable_outputs REFUSES the descriptors of the SpendableOutputs of height {} ({:?}; {})", h_ev, outputs.iter().map(|o| match o { SpendableOutputDescriptor::DelayedPaymentOutput(d) => format!("delayed {} csv {}", d.output.value.to_sat(), d.to_self_delay), SpendableOutputDescriptor::StaticPaymentOutput(d) => format!("static-payment {}", d.output.value.to_sat()), SpendableOutputDescriptor::StaticOutput { output, .. } => format!("static {}", output.value.to_sat()) }).collect::<Vec<_>>(), desc)),
+						Err(p) => out.oracle.push(format!("spend_spendable_outputs panicked at height {}: {} ({})", h_ev, p.replace('\n', " ").chars().take(200).collect::<String>(), desc)),
+					}
+				},
+				_ => {},
+			}
+		}
+	}}; }
+	process_events!(a); process_events!(b);
+	let item_tok = |it: &Item| format!("{}:{}:{}:{}", match it.kind { K::S => "S", K::O => "O", K::I => "I", K::U => "U" }, it.sat,
+		if it.kind == K::O { it.cltv } else { 0 }, if it.kind == K::I || it.kind == K::U { it.cltv } else { 0 });
+	let shown0 = format!("{} | {}", show_balances(&balances_of_a(&net)), spendable);
+	out.ops.push((format!("close {} {} {} {} {}", close_h, holder_close as u8, d_a, d_b, items.iter().map(item_tok).collect::<Vec<_>>().join(" ")).trim_end().to_string(), shown0, "close".into()));
 	let _ = seed;
 	let mut pool: Vec<(Transaction, usize)> = vec![];       // (tx, broadcaster)
 	let mut a_history: Vec<Transaction> = vec![];
 	let mut last_fee: BTreeMap<Vec<OutPoint>, u64> = BTreeMap::new();
-	let mut spendable = 0u64; let mut fees = 0u64; let mut lost = 0u64;
 	let mut item_state: Vec<u8> = items.iter().map(|_| 0).collect();   // 0 open, 1 claimed by A, 2 taken by B
 	let mut idle = 0;
 	let lazy = rng.chance(1, 3);        // slow miners: claims sit unconfirmed long enough for the bump timers to fire
@@ -180,7 +273,8 @@ fn close_scenario(seed: u64, thorough: bool) -> Result<Outcome, String> {
 	let fee_kind = TRAJS[rng.below(6) as usize];
 	let mut fee_traj = Est::new(fee_kind, &mut rng);
 	out.est_kind = format!("close-estimator:{:?}", fee_kind);
-	for _round in 0..420 {
+	let rounds = 420 + d_a.max(d_b) as u32;
+	for _round in 0..rounds {
 		// the fee estimator follows a scripted trajectory (falling / rising / oscillating / random walk / spike-then-crash / constant)
 		if rng.chance(1, 4) { let v = fee_traj.next(&mut rng).min(60_000); *net.nodes[a].fee_estimator.sat_per_kw.lock().unwrap() = v; }
 		let h = net.nodes[a].best_block_info().1;
@@ -196,9 +290,14 @@ fn close_scenario(seed: u64, thorough: bool) -> Result<Outcome, String> {
 						let ph = conf_height.get(&inp.previous_output.txid).cloned().unwrap_or(h);
 						if h + 1 < ph + n.value() as u32 { out.oracle.push(format!("A's claim {} is not CSV-final at broadcast height {}", t.compute_txid(), h)); } } } }
 					let mut key: Vec<OutPoint> = t.input.iter().map(|x| x.previous_output).collect(); key.sort();
-					if let Some(f) = fee_of(&t, &prevouts) { if let Some(prev) = last_fee.get(&key) { n_rebroadcast += 1; if f < *prev { out.oracle.push(format!("A's re-issued claim {} lowers its fee {} -> {}", t.compute_txid(), prev, f)); } } last_fee.insert(key, f); }
+					// (wallet-funded anchor claims: the handler sets fee = target x SIGNED weight, ECDSA signatures vary by a byte or two)
+					let noise = if anchors && holder_close { 4 * (*net.nodes[a].fee_estimator.sat_per_kw.lock().unwrap() as u64).max(253) / 1000 + 2 } else { 0 };
+					if let Some(f) = fee_of(&t, &prevouts) { if let Some(prev) = last_fee.get(&key) { n_rebroadcast += 1; if f + noise < *prev { out.oracle.push(format!("A's re-issued claim {} lowers its fee {} -> {}", t.compute_txid(), prev, f)); } } last_fee.insert(key, f); }
 					a_history.push(t.clone());
 				}
+				// outputs of unconfirmed transactions are needed to verify their children (anchor CPFP)
+				let id = t.compute_txid();
+				for (k, o) in t.output.iter().enumerate() { prevouts.entry(OutPoint { txid: id, vout: k as u32 }).or_insert_with(|| o.clone()); }
 				pool.push((t, i));
 			}
 		}
@@ -206,55 +305,72 @@ fn close_scenario(seed: u64, thorough: bool) -> Result<Outcome, String> {
 		let mut block: Vec<Transaction> = vec![];
 		let mut taken: BTreeSet<OutPoint> = BTreeSet::new();
 		let mut claims: Vec<String> = vec![];
+		let mut new_expect: Vec<((Txid, u32), (u32, String, Vec<usize>))> = vec![];
 		for (t, who) in pool.iter().rev() {
-			let ok_inputs = t.input.iter().all(|i| prevouts.contains_key(&i.previous_output) && !spent.contains(&i.previous_output) && !taken.contains(&i.previous_output));
+			let ok_inputs = t.input.iter().all(|i| prevouts.contains_key(&i.previous_output) && conf_height.contains_key(&i.previous_output.txid) && !spent.contains(&i.previous_output) && !taken.contains(&i.previous_output));
 			let fin = !t.lock_time.is_block_height() || t.lock_time.to_consensus_u32() <= h;
 			let csv_ok = t.input.iter().all(|i| match i.sequence.to_relative_lock_time() { Some(bitcoin::relative::LockTime::Blocks(n)) => h + 1 >= conf_height.get(&i.previous_output.txid).cloned().unwrap_or(h + 1) + n.value() as u32, _ => true });
 			if !(ok_inputs && fin && csv_ok) || block.iter().any(|x| x.compute_txid() == t.compute_txid()) || !(if lazy && *who == a { rng.chance(1, 8) } else { rng.chance(2, 3) }) { continue; }
 			if t.verify(|op| prevouts.get(op).cloned()).is_err() { continue; }   // B's transactions are not under test
 			for i in &t.input { taken.insert(i.previous_output); }
 			// ledger ops: which items does this transaction resolve?
+			let id = t.compute_txid();
 			let mut fee_left = fee_of(t, &prevouts).unwrap_or(0);
-			for i in &t.input { if i.previous_output.txid == ctxid {
+			for (input_idx, i) in t.input.iter().enumerate() { if i.previous_output.txid == ctxid {
 				if let Some(idx) = items.iter().position(|it| it.vout == i.previous_output.vout) {
 					if *who == a {
-						let f = fee_left.min(items[idx].sat); fee_left -= f;
+						// a holder's second-stage HTLC transaction pays input k to output k (one each before anchors, SIGHASH_SINGLE pairs with
+						// wallet inputs / change behind them on anchor channels); a claim on the counterparty's commitment sweeps into ONE output
+						let f = if holder_close { items[idx].sat.saturating_sub(t.output.get(input_idx).map(|o| o.value.to_sat()).unwrap_or(0)) } else { let f = fee_left.min(items[idx].sat); fee_left -= f; f };
 						claims.push(format!("claim {} {} {}", idx, h + 1, items[idx].sat - f));
-						item_state[idx] = 1; fees += f;
-					} else { claims.push(format!("peer {} {}", idx, h + 1)); item_state[idx] = 2; if items[idx].kind != K::U { lost += items[idx].sat; } }
+						item_state[idx] = 1; fees += f; item_fee[idx] = f;
+						let key = if holder_close { (id, input_idx as u32) } else { (id, 0) };
+						new_expect.push((key, (if holder_close { csv_on_a } else { 0 }, format!("the output of A's claim {} for item {} ({} sat)", &id.to_string()[..8], idx, items[idx].sat), vec![idx])));
+					} else { claims.push(format!("peer {} {}", idx, h + 1)); item_state[idx] = 2; taken_at[idx] = Some(h + 1); if items[idx].kind != K::U { lost += items[idx].sat; } }
 				}
 			} }
 			block.push(t.clone());
 		}
 		for t in &block { let id = t.compute_txid(); for i in &t.input { spent.insert(i.previous_output); } for (i, o) in t.output.iter().enumerate() { prevouts.insert(OutPoint { txid: id, vout: i as u32 }, o.clone()); } conf_height.insert(id, h + 1); }
+		for (k, v) in new_expect { match expect.get_mut(&k) { Some(e) => e.2.extend(v.2), None => { expect.insert(k, v); } } }
 		mine_both(&net, &block);
 		drain(&net);
-		for e in net.nodes[a].chain_monitor.chain_monitor.get_and_clear_pending_events() { if let Event::SpendableOutputs { outputs, .. } = e { for o in outputs { spendable += match o {
-			SpendableOutputDescriptor::StaticOutput { output, .. } => output.value.to_sat(),
-			SpendableOutputDescriptor::StaticPaymentOutput(d) => d.output.value.to_sat(),
-			SpendableOutputDescriptor::DelayedPaymentOutput(d) => d.output.value.to_sat(),
-		}; } } }
-		let _ = net.nodes[b].chain_monitor.chain_monitor.get_and_clear_pending_events();
+		process_events!(a); process_events!(b);
+		// an output that pays A and whose CSV has run out must have been handed out by now
+		let now = h + 1;
+		let overdue: Vec<(Txid, u32)> = expect.iter().filter(|(k, v)| conf_height.get(&k.0).map(|c| due(*c, v.0) < now).unwrap_or(false)).map(|(k, _)| *k).collect();
+		for k in overdue { let (csv, what, _) = expect.remove(&k).unwrap(); let conf = conf_height[&k.0]; out.oracle.push(format!("{} matured at height {} (confirmed at {}, script CSV {}) but there is no SpendableOutputs for it by height {} ({})", what, due(conf, csv), conf, csv, now, desc)); }
 		let bals = balances_of_a(&net);
-		let shown = show_balances(&bals);
+		let shown = format!("{} | {}", show_balances(&bals), spendable);
+		{	// conservation on the implementation side at EVERY block (no model): what A still reports as its own + what was handed out as
+			// SpendableOutputs + the fees of the claims handed out + what the counterparty took for good = A's entitlement at closure
+			let owned: u64 = bals.iter().map(|b| match b { Balance::ClaimableAwaitingConfirmations { amount_satoshis, .. } | Balance::ContentiousClaimable { amount_satoshis, .. } | Balance::MaybeTimeoutClaimableHTLC { amount_satoshis, .. } => *amount_satoshis, _ => 0 }).sum();
+			let fees_done: u64 = (0..items.len()).filter(|&ix| evented[ix]).map(|ix| item_fee[ix]).sum();
+			let lost_done: u64 = (0..items.len()).filter(|&ix| items[ix].kind != K::U && taken_at[ix].map(|t| now >= t + lightning::chain::channelmonitor::ANTI_REORG_DELAY - 1).unwrap_or(false)).map(|ix| items[ix].sat).sum();
+			let entitled: u64 = items.iter().filter(|it| it.kind != K::U).map(|it| it.sat).sum();
+			if owned + spendable + fees_done + lost_done != entitled && !conservation_reported {
+				conservation_reported = true;
+				out.oracle.push(format!("at height {}: balances A owns {} + SpendableOutputs so far {} + fees of handed-out claims {} + taken by the counterparty {} != entitlement at closure {} (balances {}; {})", now, owned, spendable, fees_done, lost_done, entitled, show_balances(&bals), desc));
+			}
+		}
 		// the claim ops of this block are set-up lines; the block op carries the comparison
 		for cl in claims { out.ops.push((cl, "-".into(), "claim".into())); }
 		let changed = out.ops.last().map(|l| l.1 != shown).unwrap_or(true);
 		out.ops.push((format!("block {} {:x}", h + 1, seed & 0xffffff), shown.clone(), if !block.is_empty() { "block:txs".into() } else if changed { "block:matured".into() } else { "block:quiet".into() }));
-		if bals.is_empty() || (anchors && h > close_h + 160 && bals.iter().all(|b| matches!(b, Balance::MaybePreimageClaimableHTLC { .. }))) { idle += 1; if idle > 2 { break; } } else { idle = 0; }
+		if bals.is_empty() && expect.is_empty() { idle += 1; if idle > 2 { break; } } else { idle = 0; }
 	}
 	// ---- end-state oracles ------------------------------------------------------------------------------------------
-	let mut bals = balances_of_a(&net);
-	// on an anchor channel the COUNTERPARTY's own HTLC-timeout transactions need a wallet-funded bump handler, which this
-	// harness does not run: HTLCs A has no preimage for (not A's money) then stay `MaybePreimageClaimableHTLC` for ever
-	if anchors { bals.retain(|b| !matches!(b, Balance::MaybePreimageClaimableHTLC { .. })); }
-	if !bals.is_empty() { out.oracle.push(format!("A's balances did not drain: {}", show_balances(&bals))); }
+	let bals = balances_of_a(&net);
+	if !bals.is_empty() { out.oracle.push(format!("A's balances did not drain: {} ({})", show_balances(&bals), desc)); }
+	for (_, (_, what, _)) in expect.iter() { out.oracle.push(format!("{} never became a SpendableOutputs event ({})", what, desc)); }
 	let entitlement: u64 = items.iter().filter(|it| it.kind != K::U).map(|it| it.sat).sum();
-	if bals.is_empty() && spendable + fees + lost != entitlement { out.oracle.push(format!("SpendableOutputs {} + fees {} + taken by the counterparty {} != entitlement {} ({})", spendable, fees, lost, entitlement, if holder_close { "holder close" } else { "counterparty close" })); }
+	if bals.is_empty() && spendable + fees + lost != entitlement { out.oracle.push(format!("SpendableOutputs {} + fees {} + taken by the counterparty {} != entitlement {} ({})", spendable, fees, lost, entitlement, desc)); }
 	out.ops.push(("totals".into(), format!("0 {} {} {} {}", spendable, fees, lost, entitlement), "totals".into()));
 	let cnt = |k: K| items.iter().filter(|it| it.kind == k).count().min(3);
 	if n_rebroadcast > 0 { out.ops.push(("totals".into(), format!("0 {} {} {} {}", spendable, fees, lost, entitlement), "rebroadcast-seen".into())); }
 	out.class = format!("close:{}{}:O{}:I{}:U{}:S{}", if holder_close { "holder" } else { "counterparty" }, if anchors { "-anchors" } else { "" }, cnt(K::O), cnt(K::I), cnt(K::U), cnt(K::S));
+	out.est_kind = format!("{};delays:{};spent:{}", out.est_kind, if d_a > d_b { "A>B" } else { "A<B" }, n_spent_descriptors.min(9));
+	let _ = (item_state, a_history);
 	drain(&net);
 	Ok(out)
 }
@@ -470,8 +586,8 @@ fn fee_scenario(seed: u64, thorough: bool) -> Result<FeeOut, String> {
 	let hook_params = bump::synth_params(true);
 	let kind = TRAJS[rng.below(5) as usize];       // Constant is covered by the other generators
 	let mut est = Est::new(kind, &mut rng);
-	let cfg = test_default_channel_config();          // anchors_zero_fee_htlc_tx
-	let mut net = std::mem::ManuallyDrop::new(Net::new(2, vec![Some(cfg.clone()), Some(cfg)]));
+	let (cfg_0, cfg_1, d_0, d_1) = draw_cfgs(&mut rng, true);          // anchors_zero_fee_htlc_tx; per-node to_self_delay / reserve
+	let mut net = std::mem::ManuallyDrop::new(Net::new(2, vec![Some(cfg_0), Some(cfg_1)]));
 	let style = {
 		use ConnectStyle::*;
 		let styles = [BestBlockFirst, BestBlockFirstSkippingBlocks, BestBlockFirstReorgsOnlyTip, TransactionsFirst, TransactionsFirstSkippingBlocks,
@@ -510,7 +626,7 @@ fn fee_scenario(seed: u64, thorough: bool) -> Result<FeeOut, String> {
 	let mut last_own: BTreeMap<Vec<OutPoint>, (u64, u64)> = BTreeMap::new();                    // y: inputs -> (fee, weight)
 	let mut commitment: Option<Transaction> = None;
 	let tag = format!("s{}", seed);      // C07_FEE_SEED=<this number> replays the scenario
-	let desc = format!("anchor channel closed by the holder (node {}), connect style {:?}, estimator {:?}", x, style, kind);
+	let desc = format!("anchor channel closed by the holder (node {}), connect style {:?}, estimator {:?}, our_to_self_delay {} / {}", x, style, kind, d_0, d_1);
 	let set_est = |net: &Net, v: u32| { for i in 0..2 { *net.nodes[i].fee_estimator.sat_per_kw.lock().unwrap() = v; } };
 	let fee_of_tx = |t: &Transaction, prevouts: &HashMap<OutPoint, TxOut>| -> Option<u64> { let mut inp = 0u64; for i in &t.input { inp += prevouts.get(&i.previous_output)?.value.to_sat(); } inp.checked_sub(t.output.iter().map(|o| o.value.to_sat()).sum::<u64>()) };
 	// what node x's monitor yields after one call (`strat`: which FeerateStrategy that call uses for a claim issued before)
@@ -737,13 +853,22 @@ fn main() {
 		"c07fee" => run_fee(&mut rec, &mut rng, args.thorough, args.scale),
 		"c07close" => {
 			silence_stdout();
-			let n = if args.thorough { 3000 } else { 200 } * args.scale;
+			if let Ok(sd) = std::env::var("C07_CLOSE_SEED") {
+				// replay of ONE scenario: C07_CLOSE_SEED=<seed printed in the oracle message> target/debug/c07 c07close --out <dir>
+				match close_scenario(sd.parse().expect("C07_CLOSE_SEED"), args.thorough) {
+					Ok(o) => { for (op, res, cl) in &o.ops { if cl != "block:quiet" { eprintln!("{}  ->  {}   [{}]", op, res, cl); } if res == "-" && cl == "claim" { rec.directive(op); } else { rec.case(op, res, cl, true); } } for f in o.oracle { eprintln!("ORACLE {}", f); rec.oracle_fail(f); } },
+					Err(e) => eprintln!("discarded: {}", e),
+				}
+				rec.finish();
+				return;
+			}
+			let n = if args.thorough { 3000 } else { 400 } * args.scale;
 			for k in 0..n {
 				let s = rng.next();
 				match guarded(AssertUnwindSafe(|| close_scenario(s, args.thorough))) {
 					Ok(Ok(o)) => {
 						*rec.classes.entry(o.class.clone()).or_insert(0) += 1;
-						*rec.classes.entry(o.est_kind.clone()).or_insert(0) += 1;
+						for part in o.est_kind.split(';') { *rec.classes.entry(format!("close-{}", part.trim_start_matches("close-"))).or_insert(0) += 1; }
 						for (op, res, cl) in &o.ops { if res == "-" && cl == "claim" { rec.directive(op); } else { rec.case(&format!("{}", op), res, cl, cl != "block:quiet"); } }
 						for f in o.oracle { rec.oracle_fail(format!("scenario {} (seed {}): {}", k, s, f)); }
 					},
